@@ -386,7 +386,7 @@ fn drive(args: &[String]) {
     let (mut n_streams, mut n_trunc, mut n_corrupt, mut n_skipped, mut max_bytes, mut grow_items) = (0u64, 0u64, 0u64, 0u64, 0usize, 0u64);
 
     // ---- file group 1: generated histories (valid or with a predicted error), detailed validation
-    let nfiles = if thorough { 6 } else { 1 };
+    let nfiles = if thorough { 4 } else { 1 };
     for fno in 0..nfiles {
         let path = format!("{}-hist-{}.ndjson", prefix, fno);
         let mut out = Out::new(&path);
@@ -429,7 +429,7 @@ fn drive(args: &[String]) {
             }
             if total < 3000 {
                 out.run(&s, true, Frag::Each(1), true);
-                let step = if thorough { 1 } else { 61 };
+                let step = if thorough { 2 } else { 61 };
                 let mut at = 1;
                 while at < total {
                     out.run(&s, true, Frag::Sizes(vec![at]), true);
